@@ -3,7 +3,7 @@
 //! `{"threads":[{"blocks":[[size,align_log2],..],"free_mode":0|1|2,"free_seed":n},..],"rounds":R}`
 //! and prints one JSON line with the peak of (bytes mapped - bytes unmapped) observed after
 //! every allocation, process wide, relative to the level at start.
-use std::alloc::{alloc, dealloc, Layout};
+use std::alloc::{alloc, alloc_zeroed, dealloc, realloc, Layout};
 use std::io::Read;
 use std::sync::atomic::{AtomicUsize, Ordering};
 use std::sync::Arc;
@@ -76,13 +76,39 @@ fn main() {
                     }
                 }
             }
-            let layouts: Vec<Layout> = t.blocks.iter().map(|&(s, a)| Layout::from_size_align(s.max(1), 1usize << a.min(13)).unwrap()).collect();
+            let mut layouts: Vec<Layout> = t.blocks.iter().map(|&(s, a)| Layout::from_size_align(s.max(1), 1usize << a.min(13)).unwrap()).collect();
+            let orig = layouts.clone();
             let mut ptrs: Vec<*mut u8> = vec![std::ptr::null_mut(); n];
             let mut local_peak = 0usize;
             for r in 0..rounds {
                 for j in 0..n {
-                    let p = unsafe { alloc(layouts[j]) };
+                    // every entry point of the global allocator in turn: alloc, alloc_zeroed, and
+                    // alloc followed by a growing / shrinking realloc (the block keeps its tag bytes)
+                    layouts[j] = orig[j];
+                    let how = if orig[j].size() <= (32 << 10) { (j as u64 + r) % 4 } else { 0 };
+                    let mut p = unsafe { if how == 1 { alloc_zeroed(layouts[j]) } else { alloc(layouts[j]) } };
                     assert!(!p.is_null(), "allocation failed");
+                    if verify {
+                        let sz = layouts[j].size();
+                        if p as usize % layouts[j].align() != 0 {
+                            corrupt.fetch_add(1, Ordering::Relaxed);
+                        }
+                        if how == 1 && unsafe { p.read() != 0 || p.add(sz - 1).read() != 0 || p.add(sz / 2).read() != 0 } {
+                            corrupt.fetch_add(1, Ordering::Relaxed);
+                        }
+                        if how >= 2 && sz <= (32 << 10) {
+                            let first = 0x40 | (j as u8 & 0x3f);
+                            unsafe { p.write(first) };
+                            let new_size = if how == 2 { sz * 2 + 1 } else { (sz / 2).max(1) };
+                            let q = unsafe { realloc(p, layouts[j], new_size) };
+                            assert!(!q.is_null(), "reallocation failed");
+                            if q as usize % layouts[j].align() != 0 || unsafe { q.read() } != first {
+                                corrupt.fetch_add(1, Ordering::Relaxed);
+                            }
+                            p = q;
+                            layouts[j] = Layout::from_size_align(new_size, layouts[j].align()).unwrap();
+                        }
+                    }
                     if verify {
                         let tag = (ti as u8) ^ (j as u8) ^ (r as u8) | 1;
                         unsafe {
